@@ -77,6 +77,10 @@ def find_ref_test(prog, disp):
         if pol is not None:
             tests.append((n, "true" if pol else "false"))
     if not tests:
+        truthy = [n for n in cfg.live if n.kind == "test" and isinstance(n.ast, ast.Name) and n.ast.id == refvar]
+        if truthy:
+            # presence decided by truthiness: {"$ref": ""} is present but falsy
+            return lookup, refvar, [("truthiness", truthy[0])]
         raise AnalysisError("dispatcher: no `%s is (not) None` test found" % refvar)
     return lookup, refvar, tests
 
@@ -148,6 +152,12 @@ def rule_short_circuit(ctx, rid="R2.1"):
     r = ctx.rule(rid, "when $ref is present the dispatch iterable is the single entry (\"$ref\", value); "
                       "otherwise it is the schema's own items", floor=2)
     lookup, refvar, tests = find_ref_test(prog, disp)
+    if tests and tests[0][0] == "truthiness":
+        t = tests[0][1]
+        r.fail("%s|ref-presence-by-truthiness" % disp.qual, site(disp, t.ast),
+               "the presence of $ref is decided by the truthiness of its value (`if %s:`): an empty reference string \"\" (a reference to the "
+               "document itself) is treated as absent, so its sibling keywords are evaluated and a sibling id is pushed" % refvar)
+        return r
     loop, _dn, _call = keyword_loop(prog, disp)
     it = loop.ast.iter
     rd = reaching_defs(cfg)
@@ -189,6 +199,11 @@ def rule_ref_opaque(ctx, rid="R2.1b"):
     sp = schema_param(prog, disp)
     r = ctx.rule(rid, "on the $ref-present path no other key of the same schema object is read (a reference object is opaque)", floor=2)
     lookup, refvar, tests = find_ref_test(prog, disp)
+    if tests and tests[0][0] == "truthiness":
+        t = tests[0][1]
+        r.fail("%s|ref-presence-by-truthiness" % disp.qual, site(disp, t.ast),
+               "siblings of a $ref whose value is falsy (\"\") are read: presence is tested by truthiness, not by `is not None`")
+        return r
     for n in cfg.live:
         inert = guarded_absent_ids(n, refvar)
         for kind, key, a in reads_of_schema(calls, disp, n, sp):
@@ -222,3 +237,10 @@ def run(ctx):
     scope.rule_pairing(ctx, "R2.2")
     scope.rule_push_target_scope(ctx, "R2.3")
     scope.rule_join_current_scope(ctx, "R2.4")
+    # R2.5: the JSON-Pointer half of "the designated schema": the decoding pipeline rules of C14
+    from . import c14
+    c14.run_rules(ctx)
+    # R2.6: documents in the store are found under normalised URIs (references into store documents)
+    from . import c15
+    c15.rule_uridict(ctx, "R2.6a")
+    c15.rule_seeding(ctx, "R2.6b")
